@@ -181,4 +181,18 @@ def configs(tier):
     add("h_cross", "CPCCA|names", variant="names")
     add("h_cross", "CPCCA|alpha=0.5|names", variant="names", alpha=0.5)
     add("h_cross", "CPCCA|permute features of X", variant="permute-features")
+    if tier == "thorough":
+        import itertools as _it
+
+        for perm in _it.permutations(range(3)):
+            if perm != (0, 1, 2):
+                add("h_permute_features", f"EOF|permute features {perm}", perm=perm)
+        for perm in ((1, 0, 2, 3), (3, 2, 1, 0), (1, 2, 3, 0), (0, 3, 1, 2)):
+            add("h_permute_samples", f"EOF|permute samples {perm}", perm=perm)
+        for order in _it.permutations(("time", "lat", "lon")):
+            add("h_transpose", f"EOF|transpose {order}", order=order)
+        add("h_permute_features", "EOF|permute features|p4", p=4, perm=(3, 1, 0, 2))
+        add("h_names", "EOF|names=time,x (user dim names reused)", names=("time", "x"))
+        add("h_names", "ComplexEOFRotator|names=s,f", cls="ComplexEOF", p=3, rot={"n_modes": 2, "power": 1})
+        add("h_cross", "CPCCA|alpha=0.0|names", variant="names", alpha=0.0)
     return out
